@@ -42,6 +42,10 @@ SAMPLES = {
     "EncryptedMessage-out-participant": ("axolotl.protocolentities.message_encrypted.EncryptedMessageProtocolEntity", "out",
                                          lambda C: C([_cls("axolotl.protocolentities.enc.EncProtocolEntity")("pkmsg", 2, b"\x05\x06", None)], "text",
                                                      _meta(id="ABC1", recipient=G, participant=J2)), ()),
+    "IncomingReceipt-list": ("protocol_receipts.protocolentities.receipt_incoming.IncomingReceiptProtocolEntity", "in",
+                             lambda C: C("123", J, "1400000000", offline="0", type="read", items=["1400000001-1", "1400000001-2"]), ()),
+    "IncomingReceipt-group-list": ("protocol_receipts.protocolentities.receipt_incoming.IncomingReceiptProtocolEntity", "in",
+                                   lambda C: C("123", G, "1400000000", offline="0", participant=J2, items=["1400000001-1", "1400000001-2"]), ()),
     "IdentityChangeNotification": ("axolotl.protocolentities.notification_encrypt_identitychange.IdentityChangeEncryptNotification", "in",
                                    lambda C: C("1400000000", "id1", "nn", "0"), ("from",)),
     "RetryIncomingReceipt": ("axolotl.protocolentities.receipt_incoming_retry.RetryIncomingReceiptProtocolEntity", "in",
